@@ -91,7 +91,7 @@ def _metadir(workdir):
     return d
 
 
-def tlc_mc(workdir, module, cfg_text, workers=4, timeout=900, heap=None, want_T=True, coverage=False):
+def tlc_mc(workdir, module, cfg_text, workers=4, timeout=900, heap=None, want_T=True, coverage=False, env_extra=None):
     """Model-check `module` (in SPECS) with the given cfg text. Returns dict with states,
     distinct, T (list of decoded JSON values printed by the Emit action constraint)."""
     os.makedirs(workdir, exist_ok=True)
@@ -108,6 +108,8 @@ def tlc_mc(workdir, module, cfg_text, workers=4, timeout=900, heap=None, want_T=
     env = {}
     if heap:
         env["JAVA_TOOL_OPTIONS"] = "-Xmx%s" % heap
+    if env_extra:
+        env.update(env_extra)
     t0 = time.time()
     p = sh(cmd, cwd=SPECS, env=env, check=False, timeout=timeout + 30)
     shutil.rmtree(meta, ignore_errors=True)
